@@ -8,7 +8,10 @@
 // oracles: linearizability (C03/C04/C05), deadlock (C06), lock state at rest
 // (C09), lock coupling (C10), shape at quiescence (C08), and - when enabled by
 // -writeframe or a case's `opt writeframe` line - the write frame of every
-// scheduler step (C07).
+// scheduler step (C07). With -stepsnap or `opt stepsnap` the canonical rendering
+// of the whole structure (the one of the `final` line) is also printed as an
+// `s <tree>` line right before every `d` line: the structure in which that
+// scheduling decision is taken, which the model must reproduce step by step.
 package main
 
 import (
@@ -46,6 +49,7 @@ type caseSpec struct {
 	// engine options (command-line defaults, overridden by the case's `opt` line)
 	writeframe  bool // C07: diff the structure around every scheduler step
 	yieldUnlock bool // Unlock is a scheduling point too
+	stepsnap    bool // print the structure (`s <tree>`) before every scheduling decision
 }
 
 var out *bufio.Writer
@@ -258,6 +262,9 @@ func runCase(cs *caseSpec, rng *rand.Rand, replay []int, record bool) (sched []i
 	// rootMutex. wfPrev is the structure before the step in progress, wfMay the
 	// mutexes of that step (grown by OnAcquire), wfTid its task.
 	var wf *wfState
+	// stepSnaps[i] is the canonical structure at the i-th call of Choose, i.e. in the
+	// state in which the i-th decision (the i-th `d` line) is taken
+	var stepSnaps []string
 	if cs.writeframe {
 		wf = &wfState{tr: tr, rootMutex: findRootMutex(tr), everNode: map[*vsync.Mutex]bool{}}
 	}
@@ -269,6 +276,13 @@ func runCase(cs *caseSpec, rng *rand.Rand, replay []int, record bool) (sched []i
 			if msg := wf.endStep(snapNow); msg != "" {
 				oracles = append(oracles, oracleMsg{"writeframe", msg})
 			}
+		}
+		if cs.stepsnap {
+			// unsynchronised snapshot, like the write-frame oracle's: every task is parked
+			if snapNow == nil {
+				snapNow = tr.Snapshot()
+			}
+			stepSnaps = append(stepSnaps, shape.Canon(snapNow, tr.FmtKey, fmtVal))
 		}
 		// C06 oracle (Lean: Ranked (levelRank tree)): in this state every task parked in
 		// Lock() wants a mutex that comes after all it holds in the level order of the tree
@@ -376,9 +390,16 @@ func runCase(cs *caseSpec, rng *rand.Rand, replay []int, record bool) (sched []i
 			}
 		}
 	}
+	decs := 0
 	for _, e := range s.Log {
 		switch e.Kind {
 		case "dec":
+			// a decision that was rejected (schedule names a disabled task) has no `d`
+			// line and hence no `s` line either
+			if cs.stepsnap && decs < len(stepSnaps) {
+				lines = append(lines, "s "+stepSnaps[decs])
+			}
+			decs++
 			lines = append(lines, fmt.Sprintf("d %d %s", e.Tid, e.Text))
 		case "acq":
 			lines = append(lines, fmt.Sprintf("a %d %s", e.Tid, midName[e.Mid]))
@@ -435,6 +456,9 @@ func runCase(cs *caseSpec, rng *rand.Rand, replay []int, record bool) (sched []i
 		// per-op: locks held when an operation returned
 		held := map[int]map[string]bool{}
 		for _, l := range lines {
+			if strings.HasPrefix(l, "s ") {
+				continue
+			}
 			f := strings.Fields(l)
 			tid, _ := strconv.Atoi(f[1])
 			if held[tid] == nil {
@@ -691,6 +715,7 @@ func main() {
 	dfsMax := flag.Int("dfs-max", 20000, "maximum number of schedules per dfs case")
 	wfFlag := flag.Bool("writeframe", false, "C07 write-frame oracle: diff the structure around every scheduler step")
 	yuFlag := flag.Bool("yieldunlock", false, "Unlock is a scheduling point too (a goroutine parks, enabled, right after releasing)")
+	ssFlag := flag.Bool("stepsnap", false, "print the canonical structure (`s <tree>`, as in the `final` line) before every scheduling decision")
 	flag.Parse()
 	in := bufio.NewScanner(os.Stdin)
 	in.Buffer(make([]byte, 1<<20), 1<<26)
@@ -707,7 +732,7 @@ func main() {
 		switch f[0] {
 		case "cbegin":
 			o, _ := strconv.Atoi(f[2])
-			cs = &caseSpec{ty: f[1], order: o, id: strconv.Itoa(caseNo), writeframe: *wfFlag, yieldUnlock: *yuFlag}
+			cs = &caseSpec{ty: f[1], order: o, id: strconv.Itoa(caseNo), writeframe: *wfFlag, yieldUnlock: *yuFlag, stepsnap: *ssFlag}
 			caseNo++
 		case "opt":
 			// per-case engine options, so that a replay file carries them
@@ -721,6 +746,10 @@ func main() {
 					cs.writeframe = false
 				case "noyieldunlock":
 					cs.yieldUnlock = false
+				case "stepsnap":
+					cs.stepsnap = true
+				case "nostepsnap":
+					cs.stepsnap = false
 				}
 			}
 		case "pre":
@@ -780,8 +809,12 @@ func runStrategy(cs *caseSpec, dfsMax int) {
 		seenKinds := map[string]int{}
 		emitAll := len(cs.strategy) > 1 && cs.strategy[1] == "all"
 		wfSteps, wfNodes, quiet := 0, 0, 0 // over the runs that are not emitted
+		// the exploration itself runs without the per-step structure lines; a run that is
+		// emitted is re-executed under its own schedule (the engine is deterministic) with them
+		explore := *cs
+		explore.stepsnap = false
 		for {
-			sched, lines, oracles, en := runCase(cs, nil, prefix, true)
+			sched, lines, oracles, en := runCase(&explore, nil, prefix, true)
 			runs++
 			if len(oracles) > 0 {
 				bad++
@@ -794,7 +827,12 @@ func runStrategy(cs *caseSpec, dfsMax int) {
 				}
 			}
 			if emitAll || newKind || runs == 1 {
-				emitRun(cs, sched, lines, oracles)
+				if cs.stepsnap {
+					s2, l2, o2, _ := runCase(cs, nil, sched, true)
+					emitRun(cs, s2, l2, o2)
+				} else {
+					emitRun(cs, sched, lines, oracles)
+				}
 			} else if cs.writeframe {
 				quiet++
 				for _, l := range lines {
